@@ -9,7 +9,12 @@
 ; x is the encoding of (k, r)
 (define-fun is_enc ((x!arr (Array Int (_ BitVec 8))) (x!off Int) (x!len Int) (k!arr (Array Int (_ BitVec 8))) (k!off Int) (k!len Int) (r (_ BitVec 64))) Bool
   (and (= x!len (+ k!len 13))
-       (forall ((i Int)) (=> (and (<= 0 i) (< i x!len)) (= (select x!arr (+ x!off i)) (enc_byte k!arr k!off k!len r i))))))
+       (forall ((j Int)) (! (=> (and (<= x!off j) (< j (+ x!off x!len))) (= (select x!arr j) (enc_byte k!arr k!off k!len r (- j x!off)))) :pattern ((select x!arr j))))))
 ; every byte of k is greater than '$' (the documented key alphabet)
 (define-fun in_alphabet ((k!arr (Array Int (_ BitVec 8))) (k!off Int) (k!len Int)) Bool
-  (forall ((i Int)) (=> (and (<= 0 i) (< i k!len)) (bvugt (select k!arr (+ k!off i)) #x24))))
+  (forall ((j Int)) (! (=> (and (<= k!off j) (< j (+ k!off k!len))) (bvugt (select k!arr j) #x24)) :pattern ((select k!arr j)))))
+; index (0 = most significant) of the first big-endian byte in which two revisions differ (7 if none of the first 7 differ)
+(define-fun first_diff_byte ((a (_ BitVec 64)) (b (_ BitVec 64))) Int
+  (ite (not (= (be_byte a 0) (be_byte b 0))) 0 (ite (not (= (be_byte a 1) (be_byte b 1))) 1 (ite (not (= (be_byte a 2) (be_byte b 2))) 2
+  (ite (not (= (be_byte a 3) (be_byte b 3))) 3 (ite (not (= (be_byte a 4) (be_byte b 4))) 4 (ite (not (= (be_byte a 5) (be_byte b 5))) 5
+  (ite (not (= (be_byte a 6) (be_byte b 6))) 6 7))))))))
